@@ -17,3 +17,12 @@ func VerifPacketConnAddr(obj any) string {
 	}
 	return ""
 }
+
+// VerifPacketConnKey: the server socket's address and the client's address of a virtual UDP connection
+// (client ports are reused from run to run; the pair identifies the association of one run).
+func VerifPacketConnKey(obj any) string {
+	if pc, ok := obj.(*packetConn); ok && pc.addr != nil && pc.PacketConn != nil {
+		return pc.PacketConn.LocalAddr().String() + "|" + pc.addr.String()
+	}
+	return ""
+}
